@@ -405,8 +405,8 @@ def _bytes_cases(fb):
         except Refuse:
             return None
         kind, img = data_of(r)
-        if kind is None:
-            return None
+        if kind is None or kind not in ("ScalarImage", "OpticalImage", "Image"):
+            return None   # the class that is instantiated is not one the rule knows by name (built by a look-up the fold did not resolve)
         t = nf(img)
         if want == "raise":
             bad.append(f"decoded shape {shape}: returns {kind} instead of raising")
